@@ -137,6 +137,8 @@ ScPlain == Scope1(P("p", TInt0), BFor(TInt0), "map", FALSE)
 ScRef   == Scope1([P("p", RefB) EXCEPT !.default = Some("{}")], BFor(RefB), "map", FALSE)
 ScOne   == LET t == TOneOf("string", "t", TRUE, {Mem(S("x"), RefB)}) IN Scope1(P("p", t), BFor(t), "map", FALSE)
 ScRec   == Scope1(P("p", TList(TRef("A", "", None), None, None, FALSE)), BFor(TInt0), "map", FALSE)
+ScRefD  == TScope("D", {KO("D", TObject("D", {[P("r", TRef("E", "", None)) EXCEPT !.required = TRUE], P("q", TInt0)}, FALSE, "map")),
+                        KO("E", TObject("E", {P("s", TStr0), P("m", TList(TRef("E", "", None), None, Some(2), FALSE))}, FALSE, "map"))})
 DataScopesU == IF Tier = "quick" THEN {ScPlain, ScRef} ELSE {ScPlain, ScRef, ScOne, ScRec}
 OutSets(sc) == {{KV("ok", Out(sc, None, FALSE))},
                 {KV("ok", Out(sc, Some(Dn), FALSE)), KV("err", Out(ScPlain, Some(Dall), TRUE))}}
@@ -153,6 +155,13 @@ SchemaUniverse ==
                                         {}, None)),
                           KV("s2", Step("s2", ScPlain, {KV("ok", Out(ScRef, None, FALSE))}, {},
                                         {KV("e", Sig("e", ScOne, Some(Dn)))}, Some(Dall)))}),
+                 \* one signal ID on both sides of a step: handled and emitted, each with its own data scope and its
+                 \* own references (the two must be linked, described and rebuilt independently)
+                 TSchema({KV("s1", Step("s1", ScPlain, {KV("ok", Out(ScPlain, None, FALSE))},
+                                        {KV("x", Sig("x", ScRef, None))}, {KV("x", Sig("x", ScRefD, Some(Dn)))}, None))}),
+                 TSchema({KV("s1", Step("s1", ScRef, {KV("ok", Out(ScRefD, None, TRUE))},
+                                        {KV("x", Sig("x", ScRefD, Some(Dn))), KV("h", Sig("h", ScRec, None))},
+                                        {KV("x", Sig("x", ScRec, None)), KV("h", Sig("h", ScRef, None))}, Some(Dn)))}),
                  TSchema({})}
     IN one \cup two
 Universe == ScopeUniverse \cup SchemaUniverse
@@ -256,8 +265,10 @@ BaseSmall == TScope("A", {KO("A", TObject("A", {P("p", TRef("A", "", None)), [P(
                                            FALSE, "map"))})
 BaseTiny  == TScope("A", {KO("A", TObject("A", {P("p", TStr0)}, FALSE, "map"))})
 BaseFloat == Scope1(P("p", TFloat(Some(-3), Some(9), None)), BFor(TInt0), "map", FALSE)
+\* (the step handles and emits a signal with the same ID; each side has its own data scope and reference)
+BaseSmallB  == TScope("B", {KO("B", TObject("B", {P("r", TRef("B", "", None)), P("n", TInt0)}, FALSE, "map"))})
 BaseSchema  == TSchema({KV("s1", Step("s1", BaseSmall, {KV("ok", Out(BaseOne, Some(Dn), FALSE))},
-                                      {KV("h", Sig("h", BaseSmall, None))}, {KV("e", Sig("e", BaseTiny, None))}, None))})
+                                      {KV("h", Sig("h", BaseSmall, None))}, {KV("h", Sig("h", BaseSmallB, None))}, None))})
 BaseSchemaS == TSchema({KV("s1", Step("s1", BaseTiny, {KV("ok", Out(BaseSmall, None, TRUE))}, {}, {}, Some(Dn)))})
 Bases == IF Tier = "quick" THEN {BaseRich, BaseOne, BaseSmall, BaseSchema}
          ELSE IF MaxMut = 1 THEN {BaseRich, BaseOne, BaseOneI, BaseEnum, BaseEnumI, BaseInner, BaseSmall, BaseTiny,
